@@ -9,6 +9,7 @@ for d in sorted(glob.glob('/verif/seeded/*/')):
     caught = []
     for r in m.get('checks_run', {}).get('results', []):
         caught.append(cell(r)[:220])
+    if m.get('checks_run', {}).get('after_strengthening'): caught.append(cell(m['checks_run']['after_strengthening'])[:700])
     if m.get('obsolete_since'): caught.append('OBSOLETE: ' + cell(m['obsolete_since'])[:260])
     rows.append('| %s | %s | %s | %s | |' % (sid, cell(m.get('summary', ''))[:330], cell(m.get('needs_to_manifest', ''))[:260], '<br>'.join(caught)))
 p = '/verif/DESIGN.md'; s = open(p).read()
